@@ -386,6 +386,10 @@ class MetadorGroup(MetadorNode):
     def __iter__(self):
         return iter(self.keys())
 
+    def __reversed__(self):
+        # must be overridden, otherwise is passed through to the raw group
+        return reversed(list(self.keys()))
+
     def __len__(self):
         return len(list(self.keys()))
 
